@@ -230,6 +230,44 @@ func init() {
 		o.MinSites(1)
 	})
 
+	reg("C16", "C16.9", "T9", "printer and lexer agree on what must be quoted: labels.isReserved and parse.isReserved are the same predicate", func(o *Ob) {
+		e := o.E
+		sig := func(name string) string {
+			f := o.Fn(name)
+			var parts []string
+			parts = append(parts, e.LitsOf(f)...)
+			r := (&Walk{Fn: f}).FromEntry()
+			leaves := map[string]bool{}
+			for _, ret := range r.Returns() {
+				for _, v := range e.RetVals(r, ret, 0) {
+					leaves[e.X(f, v)] = true
+				}
+			}
+			var ls []string
+			for k := range leaves {
+				ls = append(ls, k)
+			}
+			sort.Strings(ls)
+			o.SiteS(name + ": branches {" + strings.Join(parts, "; ") + "} returns {" + strings.Join(ls, "; ") + "}")
+			return strings.Join(parts, ";") + " => " + strings.Join(ls, ";")
+		}
+		a, b := sig("am/pkg/labels.isReserved"), sig("am/matcher/parse.isReserved")
+		o.Check(a == b, "reserved-agree", "Matcher.String quotes a label name iff labels.isReserved says so, the UTF-8 lexer splits on parse.isReserved: they differ ("+a+" vs "+b+"), so a printed matcher can fail to parse back", nil)
+		// and String consults it for every rune of the name
+		ms := o.Fn("(*am/pkg/labels.Matcher).String")
+		ir := o.Fn("am/pkg/labels.isReserved")
+		used := len(e.CallsDeep(ms, "am/pkg/labels.isReserved")) >= 1
+		for _, in := range AllInstrs(ms) {
+			for _, op := range in.Operands(nil) {
+				if *op != nil && e.FuncValue(*op) == ir {
+					used = true
+				}
+			}
+		}
+		o.Check(used, "reserved-used", "Matcher.String no longer decides quoting with isReserved", nil)
+		o.MinSites(2)
+	})
+
 	reg("C16", "C16.7", "T9", "operator tables agree: classic typeMap and MatchType.String map all four operators consistently", func(o *Ob) {
 		e := o.E
 		want := map[string]int64{`"="`: 0, `"!="`: 1, `"=~"`: 2, `"!~"`: 3}
